@@ -8,10 +8,9 @@
    writes those of its intent(out)/(inout) dummies with arbitrary values.  The analysis does not see the
    intents; the semantics does.
 
-   Theorems: coverage holds for impure user calls (every by-reference argument READWRITE), for pure calls
-   and IntrinsicCall statements only when no argument is intent(out/inout) (`xsafe`); it is refuted for
-   a pure subroutine with an intent(out) dummy and for IntrinsicCall statements (RANDOM_NUMBER(x),
-   ALLOCATE(a(n), STAT=i)): the modified argument is reported READ only. *)
+   Theorems: coverage holds for impure user calls and (since the IntrinsicCall fix) statement-level
+   intrinsics (every by-reference argument READWRITE), for pure calls only when no dummy is
+   intent(out/inout) (`xsafe`); it is refuted for a pure subroutine with an intent(out) dummy. *)
 From Coq Require Import List ZArith Bool Lia.
 Import ListNotations.
 From PV Require Import Fort.Syntax Fort.Sem C11.Access C11.Proofs.
@@ -42,7 +41,9 @@ Definition xacc_stmt (x : xstmt) (loc : nat) : list access * nat :=
   | XCall (CUser pure) _ args =>
       (flat_map (call_arg loc (if pure then READ else READWRITE)) args, S loc)     (* + next_location *)
   | XCall CIntrinsic _ args =>
-      (reads_at loc (flat_map expr_reads args), loc)                               (* no next_location *)
+      (* since the fix of IntrinsicCall.reference_accesses (statement-level intrinsic = parent is a Schedule):
+         treated like an impure call; before it was (reads_at loc (flat_map expr_reads args), loc) *)
+      (flat_map (call_arg loc READWRITE) args, S loc)
   | XWhile c body =>
       let (a1, l1) := acc_block body (S loc) in (reads_at loc (expr_reads c) ++ a1, S l1)
   end.
@@ -139,18 +140,18 @@ Definition xsafe (x : xstmt) : bool :=
   match x with
   | XCore s => noprint s
   | XCall (CUser false) _ _ => true
-  | XCall _ its _ => forallb (fun i => negb (writes_of_intent i)) its
+  | XCall CIntrinsic _ _ => true
+  | XCall (CUser true) its _ => forallb (fun i => negb (writes_of_intent i)) its
   | XWhile _ body => forallb noprint body
   end.
 
 (* reason code of an unsafe statement (used by the harness to key findings) *)
-Inductive reason := RNone | RCodeBlock | RPureCallOut | RIntrinsicOut.
+Inductive reason := RNone | RCodeBlock | RPureCallOut.
 Definition xreason (x : xstmt) : reason :=
   if xsafe x then RNone else
   match x with
   | XCore _ | XWhile _ _ => RCodeBlock
-  | XCall (CUser _) _ _ => RPureCallOut
-  | XCall CIntrinsic _ _ => RIntrinsicOut
+  | XCall _ _ _ => RPureCallOut
   end.
 
 (* ------------------------------------------------------------------ proofs *)
@@ -301,53 +302,6 @@ Proof.
   - rewrite !writes_app', !writes_rds', writes_wrs in Hl. cbn [app] in Hl. auto.
 Qed.
 
-(* IntrinsicCall statement: every argument is walked as an expression (all READ) *)
-Lemma arg_reads_sub s e l : In l (arg_pre_reads s e) -> In (fst l) (expr_reads e).
-Proof.
-  intro H. apply arg_pre_reads_sub in H. destruct e; cbn [expr_reads]; try exact H.
-  - destruct H.
-  - apply in_app_iff. left. exact H.
-Qed.
-
-Lemma arg_loc_sub s e l : arg_loc s e = Some (Some l) -> In (fst l) (expr_reads e).
-Proof.
-  destruct e; cbn [arg_loc expr_reads]; intro H; try discriminate.
-  - inversion H; subst. left. reflexivity.
-  - destruct (opt_all (map (eval s) ix)); [|discriminate]. inversion H; subst. apply in_app_iff. right. left. reflexivity.
-  - destruct (eval s (EUn o e)); discriminate.
-  - destruct (eval s (EBin o e1 e2)); discriminate.
-  - destruct (eval s (EIntr f args)); discriminate.
-Qed.
-
-Lemma intrinsic_call_covers s loc : forall its args R W,
-  forallb (fun i => negb (writes_of_intent i)) its = true ->
-  callee_accesses s its args = Some (R, W) ->
-  bcovers (rds (flat_map (arg_pre_reads s) args) ++ rds R ++ wrs W) (reads_at loc (flat_map expr_reads args)).
-Proof.
-  intros its args R W Hw H.
-  assert (G : (forall l, In l (flat_map (arg_pre_reads s) args) -> In (fst l) (flat_map expr_reads args)) /\
-              (forall l, In l R -> In (fst l) (flat_map expr_reads args)) /\ W = []).
-  { revert args R W H Hw. induction its as [|i its IH]; intros [|e args] R W H Hw; cbn [callee_accesses] in H; try discriminate.
-    - inversion H; subst. repeat split; intros l [].
-    - cbn [forallb] in Hw. apply andb_true_iff in Hw as [Hi Hw]. apply negb_true_iff in Hi.
-      destruct (arg_loc s e) as [[l0|]|] eqn:El; try discriminate;
-        destruct (callee_accesses s its args) as [[R' W']|] eqn:Ec; try discriminate.
-      + inversion H; subst. clear H. destruct (IH args R' W' Ec Hw) as [G1 [G2 G3]]. rewrite Hi, G3.
-        cbn [flat_map]. repeat split; intros l Hl.
-        * apply in_app_iff in Hl as [Hl|Hl]; apply in_app_iff; [left; apply (arg_reads_sub s), Hl | right; apply G1, Hl].
-        * apply in_app_iff in Hl as [Hl|Hl]; apply in_app_iff.
-          -- left. destruct (reads_of_intent i); [|destruct Hl]. destruct Hl as [<-|[]]. apply (arg_loc_sub s), El.
-          -- right. apply G2, Hl.
-      + rewrite Hi in H. inversion H; subst. clear H. destruct (IH args R W Ec Hw) as [G1 [G2 G3]].
-        cbn [flat_map]. repeat split; try assumption; intros l Hl.
-        * apply in_app_iff in Hl as [Hl|Hl]; apply in_app_iff; [left; apply (arg_reads_sub s), Hl | right; apply G1, Hl].
-        * apply in_app_iff. right. apply G2, Hl. }
-  destruct G as [G1 [G2 ->]]. split; intros l Hl.
-  - rewrite !reads_app', !reads_rds', reads_wrs, app_nil_r in Hl. apply is_read_reads_at.
-    apply in_app_iff in Hl as [Hl|Hl]; auto.
-  - rewrite !writes_app', !writes_rds', writes_wrs in Hl. destruct Hl.
-Qed.
-
 (* ---- while *)
 Lemma while_covers (run : store -> outcome) c A loc :
   (forall s s' tr ctl, run s = Ok s' tr ctl -> bcovers tr A) ->
@@ -379,7 +333,7 @@ Proof.
     inversion H; subst. destruct k as [[|]|]; cbn [fst].
     + eapply user_call_covers; [reflexivity | right; exact Hs | exact E].
     + eapply user_call_covers; [reflexivity | left; reflexivity | exact E].
-    + eapply intrinsic_call_covers; eassumption.
+    + eapply user_call_covers; [reflexivity | left; reflexivity | exact E].
   - pose proof (fun s s' tr ctl => core_block_bcovers fuel body (S loc) s s' tr ctl Hs) as Hb.
     destruct (acc_block body (S loc)) as [a1 l1]. cbn [fst] in *.
     eapply while_covers; [exact Hb | exact H].
@@ -437,29 +391,19 @@ Example xcovers_nonvacuous :
 Proof. vm_compute. repeat split. Qed.
 
 (* ------------------------------------------------------------------ refutations (faithful model) *)
-(* IntrinsicCall statement whose argument is modified: `call random_number(x)` built by
-   IntrinsicCall.create, `ALLOCATE(a(n), STAT=i)`, `DEALLOCATE(a)`: the argument is reported READ only *)
-Theorem access_refuted_intrinsic_sub_ :
-  exists x outs s s' tr c l,
-    xstep 1 outs x s = Ok s' tr c /\ In l (writes tr) /\ is_written (fst l) (fst (xacc_stmt x 0)) = false.
-Proof.
-  exists (XCall CIntrinsic [IOut] [EVar 7]), (fun _ => 5%Z), (store_of [] []).
-  eexists. eexists. eexists. exists (7, []).
-  split; [vm_compute; reflexivity|]. split; [vm_compute; left; reflexivity | vm_compute; reflexivity].
-Qed.
+(* IntrinsicCall statements (ALLOCATE(a(n), STAT=i), DEALLOCATE, RANDOM_NUMBER(x) ...): since the fix every
+   by-reference argument is READWRITE, so coverage holds in full whatever the intents (before the fix this
+   was refuted: the arguments were READ only) *)
+Theorem intrinsic_stmt_covers_ : forall fuel outs its args loc s s' tr c,
+  xstep fuel outs (XCall CIntrinsic its args) s = Ok s' tr c ->
+  bcovers tr (fst (xacc_stmt (XCall CIntrinsic its args) loc)).
+Proof. intros. eapply xstep_covers; [reflexivity | eassumption]. Qed.
 
-(* ALLOCATE(a(n), STAT=i): both the allocated array and the STAT variable are modified *)
-Theorem access_refuted_allocate_ :
+Example allocate_reported_written :
   let x := XCall CIntrinsic [IOut; IOut] [EIdx 2 [EVar 1]; EVar 4] in
-  exists outs s s' tr c,
-    xstep 1 outs x s = Ok s' tr c /\ In (4, []) (writes tr) /\ In (2, [3%Z]) (writes tr) /\
-    is_written 4 (fst (xacc_stmt x 0)) = false /\ is_written 2 (fst (xacc_stmt x 0)) = false /\
-    is_read 1 (fst (xacc_stmt x 0)) = true.
-Proof.
-  exists (fun _ => 0%Z), (store_of [((1, []), 3%Z)] []).
-  eexists. eexists. eexists. split; [vm_compute; reflexivity|].
-  vm_compute. repeat split; auto.
-Qed.
+  is_written 4 (fst (xacc_stmt x 0)) = true /\ is_written 2 (fst (xacc_stmt x 0)) = true /\
+  is_read 1 (fst (xacc_stmt x 0)) = true /\ snd (xacc_stmt x 0) = 1.
+Proof. vm_compute. repeat split. Qed.
 
 (* a PURE subroutine may still have intent(out) dummies; Call.reference_accesses reports READ for all *)
 Theorem access_refuted_pure_call_ :
